@@ -7,7 +7,9 @@ from debian_inspector import copyright as cr
 
 ID = 'C09'
 LEVEL = 'proof'
-THEOREMS = [('DebInspector.Thm.C09', ['Props.C09.classify_header', 'Props.C09.classify_files', 'Props.C09.classify_license', 'Props.C09.yearSpec_isYearRange'])]
+THEOREMS = [('DebInspector.Thm.C09', ['Props.C09.license_typed', 'Props.C09.formatted_typed', 'Props.C09.copyright_typed', 'Props.C09.wsSep_typed',
+                                      'Props.C09.single_typed', 'Props.C09.extra_typed', 'Props.C09.statement_eq', 'Props.C09.isYearRange_eq_spec',
+                                      'Props.C09.classify_header', 'Props.C09.classify_files', 'Props.C09.classify_license', 'Props.C09.yearSpec_isYearRange'])]
 TRUSTED = [
     'Lean 4.33.0 kernel',
     'reading of the property as Props.C09.holdsOn over the document grammar of Props/Dep5.lean (typed values written from the copyright-format specification)',
@@ -18,13 +20,14 @@ ASSUMPTIONS = ['text blocks start with a paragraph line (a verbatim or marker fi
 RULE = ('documents with a header paragraph and 0-4 files / stand-alone license paragraphs, shuffled field order, either spelling of licence and any label case, multi-line copyright and '
         'license values with blank-line markers and verbatim lines, extra fields in any paragraph, year ranges with punctuation and statements without years; the stored copyright files '
         'through the correspondence only. non-trivial = at least two paragraphs')
-TECHNIQUE = ('executable typed-value specification over the document grammar evaluated on every implementation observation + correspondence with the hand model; '
-             'Lean 4 theorems for classification and for the year-range test')
-LEVEL_TEXT = ('Proved in Lean 4: the model classifies a group of fields as header whenever it has a Format field, as files when it has Files and no Format, as stand-alone license when it has '
-              'License and neither (classify_*), whatever the other fields and their order; and the year-range test of the model accepts every token of digits and punctuation with at least one '
-              'digit (yearSpec_isYearRange). That every paragraph of every grammar document carries exactly the typed values the document spells, keeps unknown fields as extra data, and that '
-              'validity is equivalent to having a files paragraph is decided by the executable specification on every implementation observation and by correspondence; not yet a theorem.')
-LEVEL_NOTE = ('Trusted: Lean kernel; axioms propext, Classical.choice, Quot.sound only for the registered theorems; the typed-value clauses rest on specification evaluation + correspondence.')
+TECHNIQUE = ('Lean 4 theorems: for every field of the DEP-5 grammar the converter of its kind gives exactly the typed value the document spells (six kinds), classification by field names, year-range test = specification '
+             '+ executable typed-value specification over whole documents evaluated on every implementation observation + correspondence with the hand model')
+LEVEL_TEXT = ('Proved in Lean 4, for every field of the grammar (any number and content of continuation lines): the converter of its kind applied to the field text as written gives exactly the typed value the document spells - '
+              'license: short name = first line, text = decoded continuation lines (markers -> blank lines, verbatim lines keep their indentation) (license_typed); formatted text, whether it starts on the declaration line or on the first continuation line (formatted_typed); '
+              'copyright: one statement per line, split into a leading year range and the holder exactly as the specification splits it (copyright_typed, statement_eq, isYearRange_eq_spec on ASCII words); white-space lists (wsSep_typed); single lines (single_typed); '
+              'unknown fields kept verbatim (extra_typed). And: a group with a Format field is a header, with Files and no Format a files paragraph, with License and neither a license paragraph (classify_*). '
+              'That a whole document goes through the pipeline paragraph by paragraph (parse, from_fields, lookup of each field, no merge or fold on well-formed documents) and the validity clause are decided by the executable specification on every implementation observation and by correspondence, not by theorem.')
+LEVEL_NOTE = ('Trusted: Lean kernel; axioms propext, Classical.choice, Quot.sound only; the whole-document plumbing rests on specification evaluation + correspondence.')
 
 DATA = os.path.join(os.environ.get('VERIF_REPO', '/repo'), 'tests', 'data')
 
